@@ -258,6 +258,13 @@ def rpe_cases(quick):
                         if rep and n > 8:
                             continue
                         yield "rpe %s %d %d %d %d" % (w, b12, con, n, rep)
+    # the client process dies and restarts from the saved sender sequence number
+    for w in (["2", "32"] if quick else ["1", "2", "32", "64"]):
+        for b12 in (0, 1):
+            for freq in ([1, 3, 10] if quick else [0, 1, 2, 3, 7, 10, 100]):
+                for every in ([1, 2, 3] if quick else [1, 2, 3, 5]):
+                    for rep in (0, 1):
+                        yield "rpe %s %d %d %d %d %d %d" % (w, b12, 0, 7 if quick else 12, rep, freq, every)
 
 
 def parse_rpe(line, out):
